@@ -17,7 +17,7 @@ use std::collections::BTreeSet;
 pub static SPEC: Spec = Spec {
     id: "C13",
     level: "exploration",
-    fixed_cases: |_| 64 + 6,
+    fixed_cases: |_| 64 + 7,
     random_secs: |t| t.pick(12, 180),
     random_cap: |t| t.pick(200_000, 5_000_000),
     run_case,
@@ -39,6 +39,9 @@ pub static SPEC: Spec = Spec {
         "subscribers_3",
         "late_subscriber",
         "union_checks",
+        "repeated_reads_with_pending_events",
+        "repeated_reads_with_events_kept_alive",
+        "ev:create_proof-served-or-failed:[]",
     ],
     rule: "a case = one history on a writer (appends, empty batches, clears, reads of held / missing / cleared / out-of-range indices, refused appends on a read-only core, appends failing through an injected storage fault) or one replica session (honest, stale and must-refuse altered proofs) with 1-3 subscribers attached at random times; after EVERY public call every subscriber is drained (try_recv until empty) and the exact event list is compared with the expected list for that call (append => [DataUpgrade, Have{old length, batch size, false}]; accepted proof => DataUpgrade iff it carried an upgrade, then Have{index,1,false} iff it carried a block; get of an index not held => [Get{index}]; everything else => [] ; clear => [] or only drop announcements inside the cleared range); all live subscribers must see identical lists; at the end the union of announced Have(drop=false) ranges of each subscriber equals the set of blocks that became available while it was attached; bounded-exhaustive over the 8-symbol alphabet (L=4) with a read after every op, plus random; distinct = history/session hash",
     assumptions: &["subscribers are always drained, so fewer than 32 events are pending (the property's bound)"],
@@ -106,6 +109,11 @@ impl Mon {
                         return Err(fail(format!("{class}:{what}"), format!("subscriber {si} after {what}: got {got:?} expected {exp:?}")));
                     }
                 }
+                Expect::AnyOf(lists) => {
+                    if !lists.iter().any(|l| l == &got) {
+                        return Err(fail(format!("wrong-events:{what}"), format!("subscriber {si} after {what}: got {got:?} expected one of {lists:?}")));
+                    }
+                }
                 Expect::ClearOf(cs, ce) => {
                     for e in &got {
                         match e {
@@ -151,6 +159,8 @@ impl Mon {
 enum Expect {
     Exactly(Vec<Ev>),
     ClearOf(u64, u64),
+    /// one of several exact lists
+    AnyOf(Vec<Vec<Ev>>),
 }
 
 /// Writer history with event monitor. `fault`: fail the k-th storage operation from now during
@@ -255,6 +265,7 @@ fn writer_history(ctx: &mut Ctx, ops: &[Op], r: &mut Rng, reads_after_each: bool
                     }
                     format!("ev:{w}:[G]")
                 }
+                (Expect::AnyOf(..), w) => format!("ev:{w}"),
                 (Expect::ClearOf(..), w) if w == "make_read_only" => "ev:make_read_only".to_string(),
                 (Expect::ClearOf(..), _) => "ev:clear".to_string(),
             };
@@ -274,6 +285,10 @@ fn replica_session(ctx: &mut Ctx, r: &mut Rng, script: &mut Vec<Value>) -> Resul
     for _ in 0..nsubs {
         mon.attach(rep.core());
     }
+    // the serving side has a subscriber too: serving a proof changes nothing, so it announces
+    // nothing - except the get event of the read of a block the server does not hold
+    let mut wmon = Mon { subs: vec![] };
+    wmon.attach(w.core());
     if nsubs == 3 {
         ctx.count("subscribers_3");
     }
@@ -287,6 +302,9 @@ fn replica_session(ctx: &mut Ctx, r: &mut Rng, script: &mut Vec<Value>) -> Resul
         }
         script.push(json!({"w": ops::ops_to_json(&wops)}));
         repl::apply_writer_ops(&mut w, &wops)?;
+        wmon.subs.iter_mut().for_each(|s| {
+            let _ = drain(&mut s.rx);
+        });
         for _ in 0..(1 + r.below(6)) {
             let rl = rep.model.length();
             let wl = w.model.length();
@@ -298,7 +316,23 @@ fn replica_session(ctx: &mut Ctx, r: &mut Rng, script: &mut Vec<Value>) -> Resul
             let req = rep.make_request(&plan)?;
             // missing_nodes is a read-only query: no events
             mon.after("missing_nodes", &Expect::Exactly(vec![]), &[])?;
-            let p = match create_proof(w.core(), &req) {
+            wmon.subs.iter_mut().for_each(|s| {
+                let _ = drain(&mut s.rx);
+            });
+            let made = create_proof(w.core(), &req);
+            match &made {
+                Ok(Ok(Some(_))) | Ok(Err(_)) => {
+                    ctx.count("ev:create_proof-served-or-failed:[]");
+                    wmon.after("create_proof", &Expect::Exactly(vec![]), &[])?;
+                }
+                Ok(Ok(None)) => {
+                    let bi = req.block.as_ref().map(|b| b.index).unwrap_or(u64::MAX);
+                    ctx.count("ev:create_proof-none");
+                    wmon.after("create_proof-none", &Expect::AnyOf(vec![vec![], vec![Ev::Get(bi)]]), &[])?;
+                }
+                Err(_) => {}
+            }
+            let p = match made {
                 Ok(Ok(Some(p))) => p,
                 Ok(Ok(None)) => continue,
                 other => return Err(fail("scenario:create_proof", format!("{:?}", other.map(|x| x.map_err(|e| e.to_string()))))),
@@ -419,6 +453,70 @@ fn replica_session(ctx: &mut Ctx, r: &mut Rng, script: &mut Vec<Value>) -> Resul
     Ok(())
 }
 
+/// Reads of indices that are not held, repeated, with the events left pending (fewer than 32)
+/// or kept alive by the subscriber: every read emits its own get event, in order.
+fn repeated_reads(ctx: &mut Ctx, r: &mut Rng) -> Result<(), Fail> {
+    let mut sut = Sut::create(r.next_u64(), World::new(), CacheMode::None)?;
+    let n = 2 + r.below(6) as u32;
+    repl::apply_writer_ops(&mut sut, &(0..n).map(|i| Op::Append(i + 1, 3 + i)).collect::<Vec<_>>())?;
+    let c = r.below(n as u64);
+    repl::apply_writer_ops(&mut sut, &[Op::Clear(c, c + 1)])?;
+    let nsubs = 1 + r.below(2) as usize;
+    let mut rxs: Vec<Receiver<Event>> = (0..nsubs).map(|_| sut.core().event_subscribe()).collect();
+    let keep_alive = r.chance(1, 2);
+    let defer = !keep_alive || r.chance(1, 2);
+    let mut kept: Vec<Event> = vec![];
+    let mut expected: Vec<Ev> = vec![];
+    let mut got: Vec<Vec<Ev>> = vec![vec![]; nsubs];
+    let l = n as u64;
+    let missing = [c, l, l + 5, c];
+    let reads = 4 + r.below(20);
+    for k in 0..reads {
+        let ix = if r.chance(1, 2) { c } else if r.chance(1, 4) { (c + 1) % l } else { *r.pick(&missing) };
+        let held = sut.model.get(ix).is_some();
+        match exec::call(sut.core().get(ix)) {
+            Ok(Ok(v)) if v.is_some() == held => {}
+            other => return Err(fail("scenario:get", format!("get({ix}): {:?}", other.map(|x| x.map(|y| y.map(|z| z.len())).map_err(|e| e.to_string()))))),
+        }
+        if !held {
+            expected.push(Ev::Get(ix));
+        }
+        if !defer || k + 1 == reads {
+            for (si, rx) in rxs.iter_mut().enumerate() {
+                loop {
+                    match rx.try_recv() {
+                        Ok(e) => {
+                            got[si].push(match &e {
+                                Event::Get(g) => Ev::Get(g.index),
+                                Event::DataUpgrade(_) => Ev::Upgrade,
+                                Event::Have(h) => Ev::Have(h.start, h.length, h.drop),
+                            });
+                            if keep_alive {
+                                kept.push(e);
+                            }
+                        }
+                        Err(TryRecvError::Overflowed(n)) => return Err(fail("event-queue", format!("overflowed by {n} with {} reads pending", expected.len()))),
+                        Err(_) => break,
+                    }
+                }
+            }
+        }
+    }
+    ctx.count(if defer { "repeated_reads_with_pending_events" } else { "repeated_reads_with_events_kept_alive" });
+    ctx.add("ev:get-missing:[G]", expected.len() as u64);
+    for (si, g) in got.iter().enumerate() {
+        if g != &expected {
+            let class = if g.len() < expected.len() { "missing-events" } else if g.len() > expected.len() { "extra-events" } else { "wrong-events" };
+            return Err(fail(
+                format!("{class}:repeated-reads:{}", if defer { "pending" } else { "kept-alive" }),
+                format!("subscriber {si}: {} reads of indices not held gave {} get events: got {g:?} expected {expected:?}", expected.len(), g.len()),
+            ));
+        }
+    }
+    drop(kept);
+    Ok(())
+}
+
 fn report_hist(ctx: &mut Ctx, i: usize, f: Fail, ops: &[Op], kind: &str) {
     if f.sig.starts_with("scenario:") || f.sig.starts_with("build:") {
         ctx.count("scenario_unusable");
@@ -449,8 +547,16 @@ fn run_case(ctx: &mut Ctx, id: u64) {
         }
         return;
     }
-    let which = if id < 70 { id - 64 } else { r.below(6) };
+    let which = if id < 71 { id - 64 } else { r.below(7) };
     match which {
+        6 => {
+            ctx.eval(Some(r.0));
+            match repeated_reads(ctx, &mut r) {
+                Ok(()) => {}
+                Err(f) if f.sig.starts_with("scenario:") || f.sig.starts_with("writer:") => ctx.count("scenario_unusable"),
+                Err(f) => ctx.violate(f.sig, f.detail, json!({"kind":"repeated-reads"})),
+            }
+        }
         0 | 1 => {
             // writer history with read-only tail and refused appends
             let cfg = gen::RandCfg { max_ops: 30, reopen_pct: 8, clear_pct: 15, read_pct: 30, max_block: 100, big_batch: 0, far_clear: false };
